@@ -29,11 +29,12 @@ class Mode:
     """One way of invoking xz on a file pair (or several)."""
     def __init__(self, name, args, files, direction="c", keep=False, force=False, stdout=False, stdin=False, sync=True,
                  pre_target=False, valid=True, init_ok=True, skip=False, gid=False, threads="-T1", lifted=False,
-                 hardlink=False, files_from=False):
+                 hardlink=False, files_from=False, sigpipe_ignored=False):
         self.name, self.args, self.files, self.direction = name, list(args), files, direction
         self.keep, self.force, self.stdout, self.stdin, self.sync = keep, force, stdout, stdin, sync
         self.pre_target, self.valid, self.init_ok, self.skip, self.gid = pre_target, valid, init_ok, skip, gid
         self.threads, self.lifted, self.hardlink, self.files_from = threads, lifted, hardlink, files_from
+        self.sigpipe_ignored = sigpipe_ignored   # xz inherits SIGPIPE = SIG_IGN (no handler is installed then)
         # files: list of dict(src=name, dst=name or None, data=bytes written as the source, plain=uncompressed bytes)
 
     @property
@@ -51,8 +52,15 @@ class Mode:
 
 class Plan:
     """faults: {k: ('E', errno) | ('S', count)};  sig: (k, signo, eintr) ; move: (k, 's'|'d') ; crash: (k, 'X'|'K')"""
-    def __init__(self, faults=None, sig=None, move=None, crash=None, tag=""):
+    def __init__(self, faults=None, sig=None, move=None, crash=None, tag="", epipe=None):
         self.faults, self.sig, self.move, self.crash, self.tag = dict(faults or {}), sig, move, crash, tag
+        self.epipe = epipe   # k: the k-th call (a write) hits a broken pipe: SIGPIPE is raised and the call fails with EPIPE
+
+    def sig_eff(self, mode):
+        """the signal the model sees: a broken pipe delivers SIGPIPE unless it is ignored"""
+        if self.epipe is not None and not mode.sigpipe_ignored:
+            return (self.epipe, 13, False)
+        return self.sig
 
     def env(self):
         ent = []
@@ -63,6 +71,8 @@ class Plan:
             ent.append("%d:%s%d" % (k, "J" if eintr else "G", s))
         for k, (a, v) in sorted(self.faults.items()):
             ent.append("%d:%s%d" % (k, a, v))
+        if self.epipe is not None:
+            ent.append("%d:P0" % self.epipe)
         if self.crash:
             ent.append("%d:%s" % self.crash)
         return ",".join(ent)
@@ -71,13 +81,16 @@ class Plan:
         f = dict(self.faults)
         if self.sig and self.sig[2]:
             f[self.sig[0]] = ("E", 4)
+        if self.epipe is not None:
+            f[self.epipe] = ("E", 32)
         return f
 
-    def model_args(self):
+    def model_args(self, mode):
         f = self.model_faults()
+        sg = self.sig_eff(mode)
         return "plan=%s sig=%s move=%s crash=%s" % (
             ",".join("%d:%s%d" % (k, a, v) for k, (a, v) in sorted(f.items())) or "-",
-            self.sig[0] if self.sig else "-", ("%d%s" % self.move) if self.move else "-",
+            sg[0] if sg else "-", ("%d%s" % self.move) if self.move else "-",
             self.crash[0] if self.crash else "-")
 
     def desc(self):
@@ -142,8 +155,10 @@ def run_case(xz, so, mode, plan, keep_dir=False, timeout=60):
     if mode.stdout or mode.stdin:
         fout = open(os.path.join(d, "_out"), "wb")
         sout = fout
+    # an ignored SIGPIPE is inherited through exec: let a shell ignore it and exec xz (no preexec_fn: we run in threads)
+    launch = ["/bin/sh", "-c", "trap '' PIPE; exec \"$@\"", "sh"] + argv if mode.sigpipe_ignored else argv
     try:
-        p = subprocess.run(argv, cwd=d, env=env, stdin=sin, stdout=sout, stderr=subprocess.PIPE, timeout=timeout)
+        p = subprocess.run(launch, cwd=d, env=env, stdin=sin, stdout=sout, stderr=subprocess.PIPE, timeout=timeout)
         rc, err = p.returncode, p.stderr.decode("utf-8", "replace")
     except subprocess.TimeoutExpired:
         rc, err = "timeout", "[timeout]"
@@ -425,8 +440,10 @@ def observed_fs(res, mode, idx, moved):
     return o
 
 
-def observed_exit(res, plan):
+def observed_exit(res, plan, mode=None):
     rc = res["rc"]
+    if plan.epipe is not None and mode is not None and not mode.sigpipe_ignored and rc == -13:
+        return "sig"
     if plan.crash and ((plan.crash[1] == "X" and rc == 99) or (plan.crash[1] == "K" and rc == -9)):
         return "crash"
     if isinstance(rc, int) and rc < 0:
